@@ -11,6 +11,7 @@ VARIABLES l, dead, bad,
           logs,                     \* ground truth of the last observation: key "s/t/p" -> sequence of message numbers
           call, rem, chunks,        \* producer call in progress: its begin line, the messages not yet sent, the chunks sent
           tcommitted, tlive, tylast, tystart, teverY, teverF, keymap
+          \* tlive: incarnation number of the live consumer object (0: none)
 tvars == <<l, dead, bad, P, pcfg, ccfg, logs, call, rem, chunks, tcommitted, tlive, tylast, tystart, teverY, teverF, keymap>>
 
 Key(s, t, p) == ToString(s) \o "/" \o ToString(t) \o "/" \o ToString(p)
@@ -84,10 +85,15 @@ WireStoreLabels(e) ==
     IF e.partition \notin 1..P THEN {<<"C20.store_partition", e.partition>>} ELSE
     (IF ~StoreAllowed(teverY, e.partition, e.offset) THEN {<<"C20.commit_beyond_yielded", e.partition, e.offset, teverY[e.partition]>>} ELSE {})
     \cup (IF e.stream # "1" \/ e.topic # "1" \/ e.group # ~Single THEN {<<"C20.store_args">>} ELSE {})
+    \* a consumer object that was dropped (and whose queued commits have landed: the harness waited) commits nothing more - a
+    \* commit of its stale position would move the identity's offset under its successor (re-reading acknowledged work)
+    \cup (IF e.inc # tlive THEN {<<"C20.commit_by_dropped_consumer", e.inc, tlive, e.partition, e.offset>>} ELSE {})
 StartIfNone(p) == IF StrategyKind = "next" THEN tcommitted[p] + 1 ELSE StrategyOffset
 ConsumeEndLabels(e) ==
     (IF e.error # "" THEN {<<"C20.consumer_error", e.error>>} ELSE {})
-    \cup (IF ~e.idle /\ e.error = "" /\ e.yielded # e.n THEN {<<"X.harness_count", e.yielded, e.n>>} ELSE {})
+    \* (consume_messages() may hand over a message more before it notices the shutdown signal: its select is not biased)
+    \cup (IF ~e.idle /\ e.error = "" /\ (IF "ext" \in DOMAIN e THEN e.yielded < e.n ELSE e.yielded # e.n)
+          THEN {<<"X.harness_count", e.yielded, e.n>>} ELSE {})
     \cup (IF e.idle /\ Gapless
           THEN { <<"C20.stalled", p, NextExpected(tylast, StartIfNone(p), p), Len(e.obs.logs[Key(1, 1, p)])>> :
                    p \in { p \in MyP : NextExpected(tylast, StartIfNone(p), p) < Len(e.obs.logs[Key(1, 1, p)]) } }
@@ -102,7 +108,7 @@ Reset(e) ==
     /\ P' = e.partitions /\ pcfg' = e.producer /\ ccfg' = e.consumer
     /\ logs' = [k \in { Key(s, t, p) : s \in 1..2, t \in 1..2, p \in 1..e.partitions } |-> <<>>]
     /\ call' = <<>> /\ rem' = <<>> /\ chunks' = <<>>
-    /\ tcommitted' = NoneP(e.partitions) /\ tlive' = FALSE /\ tylast' = NoneP(e.partitions) /\ tystart' = NoneP(e.partitions)
+    /\ tcommitted' = NoneP(e.partitions) /\ tlive' = 0 /\ tylast' = NoneP(e.partitions) /\ tystart' = NoneP(e.partitions)
     /\ teverY' = NoneP(e.partitions) /\ teverF' = NoneP(e.partitions) /\ keymap' = {}
     /\ dead' = FALSE /\ bad' = {}
 Keep(vs) == UNCHANGED vs
@@ -144,10 +150,10 @@ Step(e) ==
            /\ tcommitted' = IF e.res = "ok" /\ e.partition \in 1..P THEN [tcommitted EXCEPT ![e.partition] = e.offset] ELSE tcommitted
            /\ Keep(<<P, pcfg, ccfg, logs, call, rem, chunks, tlive, tylast, tystart, teverY, teverF, keymap, dead>>)
       [] e.ev = "created" ->
-           /\ bad' = ViewLabels(e) /\ tlive' = TRUE /\ tylast' = NoneP(P) /\ tystart' = NoneP(P)
+           /\ bad' = ViewLabels(e) /\ tlive' = e.inc /\ tylast' = NoneP(P) /\ tystart' = NoneP(P)
            /\ Keep(<<P, pcfg, ccfg, logs, call, rem, chunks, tcommitted, teverY, teverF, keymap, dead>>)
       [] e.ev = "dropped" ->
-           /\ bad' = ViewLabels(e) /\ tlive' = FALSE /\ tylast' = NoneP(P) /\ tystart' = NoneP(P)
+           /\ bad' = ViewLabels(e) /\ tlive' = 0 /\ tylast' = NoneP(P) /\ tystart' = NoneP(P)
            /\ Keep(<<P, pcfg, ccfg, logs, call, rem, chunks, tcommitted, teverY, teverF, keymap, dead>>)
       [] e.ev = "consume_end" ->
            /\ bad' = ConsumeEndLabels(e)
@@ -155,7 +161,7 @@ Step(e) ==
       [] OTHER -> bad' = {<<"X.unknown_event", e.ev>>} /\ Keep(<<P, pcfg, ccfg, logs, call, rem, chunks, tcommitted, tlive, tylast, tystart, teverY, teverF, keymap, dead>>)
 
 TraceInit == /\ l = 1 /\ dead = TRUE /\ bad = {} /\ P = 0 /\ pcfg = <<>> /\ ccfg = <<>> /\ logs = <<>> /\ call = <<>> /\ rem = <<>>
-             /\ chunks = <<>> /\ tcommitted = <<>> /\ tlive = FALSE /\ tylast = <<>> /\ tystart = <<>> /\ teverY = <<>> /\ teverF = <<>>
+             /\ chunks = <<>> /\ tcommitted = <<>> /\ tlive = 0 /\ tylast = <<>> /\ tystart = <<>> /\ teverY = <<>> /\ teverF = <<>>
              /\ keymap = {}
 TraceNext ==
     /\ l <= Len(Rec) /\ l' = l + 1
